@@ -308,6 +308,30 @@ pub fn check(case: &Case, env: &mut CaseEnv) -> Result<(), Failure> {
                     Ex::Null => {}
                 }
             }
+            // KF-sum-partial-sentinel: a partial sum (a contiguous run of a group's values, in row order: streamed
+            // batches, partitions and their pairwise merges all cover contiguous runs) that equals i64::MAX is read
+            // as NULL by the engine and dropped, after which neither the value nor an overflow can be predicted.
+            {
+                let mut per_group: BTreeMap<Cell, Vec<i128>> = BTreeMap::new();
+                for (r, x) in rows.iter().zip(per_row.iter()) {
+                    if let Ex::Val(v) = x {
+                        let key = if grouped { match &gq.q.select[0].expr { Expr::Col(c) => r.get(c).cloned().unwrap_or(Cell::Null), _ => Cell::Null } } else { Cell::Null };
+                        per_group.entry(key).or_default().push(*v);
+                    }
+                }
+                'outer: for vals in per_group.values() {
+                    for i in 0..vals.len() {
+                        let mut acc: i128 = 0;
+                        for v in &vals[i..] {
+                            acc += *v;
+                            if acc == i64::MAX as i128 {
+                                facts.hit_sentinel = true;
+                                break 'outer;
+                            }
+                        }
+                    }
+                }
+            }
             let must_fail = any_divzero || any_huge || groups.values().any(|g| g.3 || !fits(g.0));
             let may_fail = !facts.stepwise_ok || groups.values().any(|g| g.1 > i64::MAX as u128);
             let rows_out: Vec<Vec<Cell>> = groups
